@@ -214,6 +214,13 @@ class SimTTYOut:
         self.on_write = None  # hook(call_index, data) -> None, runs before the bytes reach the sink
         self.captured: list[str] = []
         self.capture = False
+        # buffering model of the stream: 0 = unbuffered (every write reaches the terminal at once);
+        # n > 0 = like a block-buffered text file (sys.stdout on a pipe, os.fdopen(fd, "w")): bytes reach the
+        # terminal only on flush() or when more than n characters are pending
+        self.bufsize = 0
+        self.pending: list[str] = []
+        self.pending_len = 0
+        self.flushes = 0
 
     def fileno(self) -> int:
         return self.tty.fd
@@ -224,12 +231,24 @@ class SimTTYOut:
             self.on_write(self.write_calls, data)
         if self.capture:
             self.captured.append(data)
-        if self.sink is not None:
+        if self.bufsize:
+            self.pending.append(data)
+            self.pending_len += len(data)
+            if self.pending_len > self.bufsize:
+                self._deliver()
+        elif self.sink is not None:
             self.sink.feed(data)
         return len(data)
 
+    def _deliver(self) -> None:
+        data, self.pending, self.pending_len = "".join(self.pending), [], 0
+        if data and self.sink is not None:
+            self.sink.feed(data)
+
     def flush(self) -> None:
-        pass
+        self.flushes += 1
+        if self.bufsize:
+            self._deliver()
 
     def isatty(self) -> bool:
         return True
